@@ -181,9 +181,22 @@ pub fn run(args: &Args) -> i32 {
     });
     run.cov("evaluations", evaluations);
     run.cov("distinct_nontrivial", classes.len() as u64);
-    run.cov("rule", "part 1: complete grid inner completion time {0,1,2,3,4,6,never} x inner result {Ok,Err} x duration {0,1,2,3,5} x caller's first poll {0,1,2,4} (units of 10ms, paused tokio clock) through the real TimeoutLayer; distinct = (outcome kind, is-timeout, inner vs deadline order)");
+    run.cov("rule_part1", "part 1: complete grid inner completion time {0,1,2,3,4,6,never} x inner result {Ok,Err} x duration {0,1,2,3,5} x caller's first poll {0,1,2,4} (units of 10ms, paused tokio clock) through the real TimeoutLayer; distinct = (outcome kind, is-timeout, inner vs deadline order)");
     run.cov("exhaustive", true);
     run.cov("samples", samples);
     run.assume("a future cannot resolve before it is polled: with the first poll at p the deadline is observed at max(duration,p); inner result is accepted iff it completed by then");
+    run.cov("part1_timeout_grid_cases", evaluations);
+    // Part 2: "cleans up at every stage". The timeout's only effect on the pool is dropping the inner
+    // ResponseFuture; the pool engine applies Cancel(r) in every reachable state (waiting for its own
+    // dial, waiting on another request's dial, handshaking, exchange in flight) and then requires a fresh
+    // probe request per origin to complete from every quiescent state.
+    std::panic::set_hook(Box::new(|_| {}));
+    let err = crate::poolmc::run_into(&mut run, "C19", args.tier.is_thorough());
+    let _ = std::panic::take_hook();
+    if let Some(m) = err {
+        println!("MACHINERY-ERROR {m}");
+        let _ = run.finish();
+        return 2;
+    }
     run.finish()
 }
